@@ -1198,3 +1198,13 @@ N('n_rename_private_fields', ALL, 'three private fields renamed everywhere (Foca
   (MEMBER, ('re', r'(?m)^            inner,$'), '            records: inner,'),
   (LIB, ('re', r'\bmembers\.inner\b'), 'members.records'),
   ('src/probe.rs', ('re', r'\bindirect_ack_count\b'), 'indirect_acks'))
+
+# round 5 of refactors by sub-agents (renames, pure moves, janitorial passes, error-handling style, boolean logic)
+NP('n_ref5_renames', ALL, 'R33: 10 renames of private items (function, field, params, locals)', 'selftest/neutral/R33.diff')
+NP('n_ref5_moves', ALL, 'R34: 12 pure code moves (methods, impl blocks split, use items, disjoint match arms)', 'selftest/neutral/R34.diff')
+NP('n_ref5_janitor_lib_top', ALL, 'R35: janitorial pass over the first half of lib.rs', 'selftest/neutral/R35.diff')
+NP('n_ref5_janitor_lib_bottom', ALL, 'R36: janitorial pass over the second half of lib.rs', 'selftest/neutral/R36.diff')
+NP('n_ref5_janitor_member_broadcast', ALL, 'R37: janitorial pass over member.rs and broadcast.rs', 'selftest/neutral/R37.diff')
+NP('n_ref5_janitor_small_files', ALL, 'R38: janitorial pass over the small files and codecs', 'selftest/neutral/R38.diff')
+NP('n_ref5_error_style', ALL, 'R39: 12 error-handling style rewrites', 'selftest/neutral/R39.diff')
+NP('n_ref5_boolean_logic', ALL, 'R40: 14 boolean/control-flow rewrites', 'selftest/neutral/R40.diff')
